@@ -2965,6 +2965,19 @@ where
     {
         let mut stats = InsertionStatistics::default();
         let original_coords = *vertex.point().coords();
+
+        // Non-finite coordinates must never enter the triangulation. During bootstrap no
+        // predicate looks at the point, so reject it here rather than relying on later stages.
+        if original_coords
+            .iter()
+            .any(|c| !num_traits::Float::is_finite(*c))
+        {
+            return Err(InsertionError::Construction(
+                TriangulationConstructionError::FailedToAddVertex {
+                    message: format!("vertex has non-finite coordinates {original_coords:?}"),
+                },
+            ));
+        }
         let original_uuid = vertex.uuid();
         let mut current_vertex = vertex;
         let mut last_retryable_error: Option<InsertionError> = None;
